@@ -115,6 +115,15 @@ def body(c, ctx):
     # the functional is assembled on the trial basis: BilinearForm takes x, h, n from it as well
     J = Functional(form0, dtype=dtype).assemble(ub, uh=uh, vh=vh, **fkw(fref))
     Jabs = float(np.abs(Functional(form0abs).assemble(ub, uh=uh, vh=vh, **fkw(fref))))
+    if cplx:
+        # a Functional returns what its integrand sums to: a complex integrand needs no dtype= (the keyword sizes the buffers of the
+        # two other form types; Functional has none), so the value with the default dtype is the same number
+        import warnings
+        with warnings.catch_warnings():
+            warnings.simplefilter('ignore')
+            Jd = Functional(form0).assemble(ub, uh=uh, vh=vh, **fkw(fref))
+        if not Jd == J:
+            ctx.fail('functional_default_dtype', f'complex integrand: Functional(form).assemble = {Jd!r}, with dtype=complex128 {J!r} | {lab}', **sig)
     vAu = v @ (A @ u)
     # magnitude of what is being summed: the same tree with absolute values (bounds the cancellation inside every entry)
     def form2abs(*a):
